@@ -10,6 +10,7 @@ out = ["# Seeded breaking changes", "",
        "and `meta.json`.  The changes were written by fresh sub-agents that saw only the property text and a scratch worktree of /repo.",
        "", "| id | property | change | needs | confirmed (tests pass / demo fails) | check outcome | caught by |", "|---|---|---|---|---|---|---|"]
 for m in rows:
-    out.append(f"| {m['id']} | {m['property']} | {m['change']} | {m['needs']} | {m['confirmed']} | {m['check_outcome']} | {m['caught_by']} |")
+    esc = lambda t: str(t).replace("|", "/").replace("\n", " ")
+    out.append(f"| {m['id']} | {m['property']} | {esc(m['change'])} | {esc(m['needs'])} | {esc(m['confirmed'])} | {esc(m['check_outcome'])} | {esc(m['caught_by'])} |")
 open(os.path.join(HERE, "seeded", "README.md"), "w").write("\n".join(out) + "\n")
 print(len(rows), "entries")
